@@ -57,11 +57,20 @@ class LinksHeap:
         o.cur[name] = v
         return v
 
+    MAX_LAZY = 14
+
+    def _count(self, I):
+        n = I.ps.memo.get("lazy-nodes", 0) + 1
+        I.ps.memo["lazy-nodes"] = n
+        if n > self.MAX_LAZY:
+            raise OutOfSubset("unbounded walk over the tree without an invariant (more than 14 nodes materialised on one path)")
+
     def _read(self, I, o: Obj, name):
         if name in ("left", "right"):
             c = I.ps.choose(2, name)
             if c == 0:
                 return None
+            self._count(I)
             ch = self.new_input(f"{o.label}.{name[0]}")
             ch.init["parent"] = o
             ch.cur["parent"] = o
@@ -71,12 +80,20 @@ class LinksHeap:
             if c == 0:
                 return None
             side = "left" if c == 1 else "right"
+            self._count(I)
             p = self.new_input(f"{o.label}^")
             p.init[side] = o
             p.cur[side] = o
             return p
         if name == "id":
             return IdStr(z3.Int(f"id_{o.oid}"))
+        if name == "value":
+            # payload of a constant node: an arbitrary number
+            from .values import Num
+
+            return Num(z3.Real(f"value_{o.oid}"), (z3.Bool(f"value_{o.oid}_isfloat"), False))
+        if name == "identifier":
+            return IdStr(z3.Int(f"ident_{o.oid}"))
         if name in self.extra:
             return self.extra[name](I, o)
         I.raise_("AttributeError", f"{o.clsname}.{name}", implicit=True, site=name)
